@@ -83,6 +83,14 @@ def numba_cap_binding(c):
     return c['strategy'] in ('numba', 'hybrid', 'auto') and linkgen.max_inrange(c['frames'][::-1], c['sr'], c['memory']) > 8
 
 
+def safe_strategy(c):
+    """numba_link refuses sources with more than 8 real candidates (outside 'raise in no other case', which names
+    recursive/nonrecursive only): use the recursive solver for such movies"""
+    if numba_cap_binding(c):
+        c['strategy'] = 'recursive'
+    return c
+
+
 # ---- second harness: subnet linkers on constructed candidate graphs ----------
 def gen_graph(rng, tier):
     ns = rng.randint(1, 6 if tier == 'quick' else 8)
